@@ -141,6 +141,15 @@ def run(tier, seed, t0):
                             d = res["dom"] if (how == "default" and not exc) else proj_ty(dom, names)
                             rows.append({"cls": cls, "kind": "perm", "how": how, "lt": [], "rt": [], "perm": p,
                                          "dom": d, "exc": exc, "res": res})
+                        if cls in ("monoidal", "rigid") and p:
+                            # permute() of a diagram whose domain differs from its codomain: what follows the box must be
+                            # the permutation of the *codomain* (a box from one or two other wires into dom)
+                            src = mk(len(p) + 2, var)[len(p):][:(2 if len(p) == 1 else 1)]
+                            from discopy import monoidal as _m, rigid as _r
+                            box = (_m.Box if cls == "monoidal" else _r.Box)("f", src, dom)
+                            exc, res = observe(lambda: box.permute(*p)[1:], names)
+                            rows.append({"cls": cls, "kind": "perm", "how": "permute-after-box", "lt": [], "rt": [], "perm": p,
+                                         "dom": proj_ty(dom, names), "exc": exc, "res": res})
             for p in bad_perms:
                 dom = mk(len(p), 0)
                 exc, res = observe(lambda: factory.permutation(list(p), dom), names)
@@ -280,7 +289,15 @@ def replay(path):
             else:
                 p = list(obs["perm"])
                 dom = mk(len(obs["dom"]), var)
-                exc, res = observe(lambda: factory.permutation(list(p), dom), names)
+                fn = lambda: factory.permutation(list(p), dom)
+                if obs.get("how") == "permute":
+                    fn = lambda: factory.id(dom).permute(*p)
+                elif obs.get("how") == "permute-after-box":
+                    from discopy import monoidal as _m, rigid as _r
+                    src = mk(len(p) + 2, var)[len(p):][:(2 if len(p) == 1 else 1)]
+                    box = (_m.Box if obs["cls"] == "monoidal" else _r.Box)("f", src, dom)
+                    fn = lambda: box.permute(*p)[1:]
+                exc, res = observe(fn, names)
                 rows.append(dict(obs, dom=proj_ty(dom, names), exc=exc, res=res))
         tf = os.path.join(work, "one.ndjson")
         core.write_ndjson(tf, rows)
